@@ -76,7 +76,7 @@ class Interp:
         s.mod = mod; s.dom = dom; s.solver = z3.Solver(); s.pc = []; s.decisions = list(decisions or []); s.taken = []
         s.st = stats or Stats(); s.viol = []; s.regions = []; s.globals = {}; s.rcnt = 0; s.bases = {}
         s.notes = []; s.val_cache = {}; s.fma_fused = '+fma' in mod.target_features
-        s.heap_calls = []; s.depth = 0
+        s.heap_calls = []; s.depth = 0; s.name_ite = False
         for c in (pc or []): s.assume(c)
 
     # ------------------------------------------------------------ solver helpers
@@ -388,6 +388,16 @@ class Interp:
 
     def ite(s, c, a, b):
         """c: z3 Bool"""
+        r = s.ite0(c, a, b)
+        if s.name_ite and not isinstance(c, int):
+            # name the selected value (definition added to the hypotheses): keeps min/max networks linear for the solver
+            if isinstance(r, FV) and r.r is not None and r.den is None and z3.is_app_of(r.r, z3.Z3_OP_ITE):
+                s.dom.cnt += 1; v = z3.Real(f'sel!{s.dom.cnt}'); s.dom.hyp.append(v == r.r); return FV(r.w, r=v, depth=r.depth)
+            if z3.is_expr(r) and z3.is_bv(r) and z3.is_app_of(r, z3.Z3_OP_ITE):
+                s.dom.cnt += 1; v = z3.BitVec(f'sel!{s.dom.cnt}', r.size()); s.dom.hyp.append(v == r); return v
+        return r
+
+    def ite0(s, c, a, b):
         if a is b: return a
         if isinstance(c, int): return a if c else b
         if isinstance(a, list): return [s.ite(c, x, y) for x, y in zip(a, b)]
